@@ -1306,10 +1306,14 @@ class BoundBuiltin:
 def _b_abs(it: Interp, args, kw):
     v = args[0]
     if is_num(v):
-        s = it.sign_of(v)
         if v.is_const():
             return num(abs(v.const_value()))
-        return abs_of(v, it.nonneg)
+        r = abs_of(v, it.nonneg)
+        if it.samples and any(isinstance(a, Op) and a.name == "abs" for a in r.atoms()):
+            # the sign of a multi-term expression is a property of the abstract case: decide it on the
+            # witnesses (forks when they disagree)
+            return v if it.decide_num(v, ast.GtE(), num(0)) else -v
+        return r
     if v is NAN:
         return NAN
     return Unknown("abs")
